@@ -1,8 +1,12 @@
 package kechan
 
 import (
+	"context"
+
 	"bytes"
 	"fmt"
+	"go.brendoncarroll.net/p2p"
+	"runtime"
 	"strings"
 	"sync"
 	"sync/atomic"
@@ -240,6 +244,111 @@ func TestC02ConcurrentSend(t *testing.T) {
 		key := fmt.Sprintf("g=%d per=%d", g, per)
 		if ev.NonTrivial(sub, key) {
 			ev.Sample(sub, key)
+		}
+	})
+}
+
+// TestC02ConcurrentDuplicates: copies of one ciphertext that are inside Channel.Deliver at the same instant
+// (a duplicated datagram handled by parallel receive workers) yield the plaintext at most once.
+func TestC02ConcurrentDuplicates(t *testing.T) {
+	const sub = "C02.concurrent_duplicate_deliveries"
+	ev.Rule(sub, "rapid: an established channel pair with rekeying disabled; 40-200 trials per case: the sender emits a data message after skipping 0-9000 counters (messages the wire loses, so that the replay window moves by up to its full width), and 2-8 goroutines released from a barrier call Channel.Deliver with copies of that one ciphertext. Oracle: the plaintext comes out of at most one of the calls (and of exactly one when none of them reports an error), and it is the plaintext that was sent. non-trivial = a case in which the window had to move forward past its width at least once; distinct by parameters")
+	rapid.Check(t, func(t *rapid.T) {
+		trials := rapid.IntRange(40, 200).Draw(t, "trials")
+		g := rapid.IntRange(2, 8).Draw(t, "goroutines")
+		gapKind := rapid.SampledFrom([]string{"none", "small", "window", "window"}).Draw(t, "gap")
+		procs := rapid.SampledFrom([]int{2, 4, 16}).Draw(t, "gomaxprocs")
+		old := runtime.GOMAXPROCS(procs)
+		defer runtime.GOMAXPROCS(old)
+		desc := fmt.Sprintf("trials=%d goroutines=%d gap=%s procs=%d", trials, g, gapKind, procs)
+		cfg := chanCfg{backoff: 10 * time.Millisecond, keepAlive: time.Minute, rekey: time.Hour, reject: time.Hour}
+		nt := newNet()
+		defer nt.close()
+		a := nt.addNode("A", kA, acceptAll, cfg)
+		b := nt.addNode("B", kB, acceptAll, cfg)
+		nt.link(a, b)
+		nt.link(b, a)
+		if err := a.send("m0", 5*time.Second); err != nil {
+			ev.Class(sub, "not-judged:initial-send-timed-out")
+			return
+		}
+		// from now on the wire loses everything; ciphertexts are taken from what A emitted
+		var lastMu sync.Mutex
+		var last []byte
+		nt.mu.Lock()
+		nt.drop = func(from *node, data []byte) bool {
+			if from == a {
+				lastMu.Lock()
+				last = append(last[:0], data...)
+				lastMu.Unlock()
+			}
+			return true
+		}
+		nt.mu.Unlock()
+		lastEmitted := func() []byte {
+			lastMu.Lock()
+			defer lastMu.Unlock()
+			return append([]byte{}, last...)
+		}
+		for k := 0; k < trials; k++ {
+			skip := 0
+			switch gapKind {
+			case "small":
+				skip = k % 7
+			case "window":
+				if k%4 == 0 {
+					skip = 8200 + k%100 // more than the replay filter remembers
+				}
+			}
+			for i := 0; i < skip; i++ {
+				a.ch.Send(context.Background(), p2p.IOVec{[]byte("lost")})
+			}
+			pt := fmt.Sprintf("dup-trial-%d|0123456789abcdef", k)
+			if err := a.ch.Send(context.Background(), p2p.IOVec{[]byte(pt)}); err != nil {
+				t.Fatalf("Send failed on an established channel: %v\ncase: %s", err, desc)
+			}
+			ct := lastEmitted()
+			var gate atomic.Bool
+			outs := make([][]byte, g)
+			errs := make([]error, g)
+			var wg sync.WaitGroup
+			for i := 0; i < g; i++ {
+				i := i
+				wire := append([]byte{}, ct...)
+				wg.Add(1)
+				go func() {
+					defer wg.Done()
+					for !gate.Load() {
+					}
+					outs[i], errs[i] = b.ch.Deliver(nil, wire)
+				}()
+			}
+			gate.Store(true)
+			wg.Wait()
+			n, nerr := 0, 0
+			for i := range outs {
+				if errs[i] != nil {
+					nerr++
+				}
+				if outs[i] != nil {
+					n++
+					if string(outs[i]) != pt {
+						t.Fatalf("trial %d: a copy of the ciphertext decrypted to %q, sent was %q\ncase: %s", k, truncate(string(outs[i])), pt, desc)
+					}
+				}
+			}
+			if n > 1 {
+				t.Fatalf("trial %d: %d of %d simultaneous deliveries of one ciphertext (counter %d, %d counters skipped before it) handed the plaintext to the application\ncase: %s", k, n, g, counterOf(ct), skip, desc)
+			}
+			if n == 0 && nerr == 0 {
+				t.Fatalf("trial %d: none of %d simultaneous deliveries of a fresh ciphertext yielded the plaintext and none reported an error\ncase: %s", k, g, desc)
+			}
+		}
+		ev.EvalN(sub, int64(trials))
+		if gapKind == "window" {
+			if ev.NonTrivial(sub, desc) {
+				ev.Sample(sub, desc)
+			}
 		}
 	})
 }
